@@ -27,7 +27,7 @@ ASSUMPTIONS = [
     "link keys beyond the configured key-table size, fields a version cannot store (v4: frame counters, children below v9) and the EUI64 when it cannot be rewritten are excluded, as the statement says",
     "command payload schemas inside the NCP model are bellows' own tables",
 ]
-PROBES = ["formed_by_zigpy_initialize", "eui64.rewritten_nv3", "eui64.not_rewritable", "eui64.same", "eui64.custom_before", "eui64.unknown", "hashed_tclk.given", "hashed_tclk.generated", "link_keys.some", "link_keys.over_capacity", "link_keys.gap_in_table", "read_failed_on_unanswered_command", "read_returned_despite_unanswered_command", "write_failed_on_unanswered_command", "write_returned_despite_unanswered_command",
+PROBES = ["formed_by_zigpy_initialize", "restore_over_same_network", "eui64.rewritten_nv3", "eui64.not_rewritable", "eui64.same", "eui64.custom_before", "eui64.unknown", "hashed_tclk.given", "hashed_tclk.generated", "link_keys.some", "link_keys.over_capacity", "link_keys.gap_in_table", "read_failed_on_unanswered_command", "read_returned_despite_unanswered_command", "write_failed_on_unanswered_command", "write_returned_despite_unanswered_command",
           "children.some", "tc_address.unknown", "status_event_before_response", "token_api_missing", "mask_without_channel"]
 
 VERSIONS = list(range(4, 15))
@@ -60,6 +60,8 @@ def plan(tier):
         # a link key in the middle of the table is erased between write and read (what an unsecured rejoin of that device does): the rest must still be read
         for tmpl, erase in ((2, 1), (3, 0), (3, 7)):
             sweeps.append(("grid", {"V": V, "cap": 3, "tmpl": tmpl, "sched": False, "erase": erase}))
+    for V in VERSIONS:
+        sweeps.append(("grid", {"V": V, "cap": 3, "tmpl": 2, "sched": False, "same_net": True}))
     # one command of the read-back is never answered (10 s command timeout): the read may fail, it must never return something else than what was written
     for V in (4, 7, 9, 13, 14):
         ks = list(range(0, 40)) + list(range(40, 330, 3 if tier == "thorough" else 9))
@@ -269,6 +271,13 @@ def run(scenario, params, tape, detail=False):
     st = {}
     ni, node, facts = make_settings(tape, params.get("tmpl"), ncp.eui64)
     written = copy.deepcopy(ni)
+    if params.get("same_net") or (scenario == "random" and tape.draw(4, "same_net") == 3):
+        # an older backup restored over the network the stick is running right now: same PAN / extended PAN, the stick's update ID, key
+        # sequence and frame counters are all AHEAD of what is written - what is written is what must come back
+        probe("restore_over_same_network")
+        ncp.preform(pan_id=facts["pan"], channel=facts["channel"], epid=facts["epid"], nwk_key=facts["nkey"])
+        ncp.net_params.nwkUpdateId = (facts["upd"] + 6) % 256
+        ncp.sec["nwk_seq"] = (facts["nseq"] + 3) % 256
 
     async def main():
         app = await rig.start_app()
